@@ -183,7 +183,7 @@ func TestVerifC03(t *testing.T) {
 		if r == nil {
 			continue
 		}
-		d1, d2 := VerifDump(s.Srv, VerifDumpOpts{}), VerifDump(r.Srv, VerifDumpOpts{})
+		d1, d2 := VerifOpaqueRe.ReplaceAllString(VerifDump(s.Srv, VerifDumpOpts{}), ""), VerifOpaqueRe.ReplaceAllString(VerifDump(r.Srv, VerifDumpOpts{}), "")
 		cutDiffers := vMaskOrigins(d1) != vMaskOrigins(d2)
 		if d1 != d2 {
 			cls, detail := vDiffClass(d1, d2)
